@@ -2,14 +2,26 @@
 import os
 
 from ddsim import gen, prng
-from ddsim import ops_expr, ops_io, ops_mdd, ops_misc, ops_reject  # noqa: F401  (register ops)
+from ddsim import ops_dense, ops_expr, ops_io, ops_mdd, ops_misc, ops_reject  # noqa: F401  (register ops)
+
+# dense workloads: (n variables, size of the enumerated space, items per run)
+DENSE = {
+    'C01': dict(n=3, space=256 * 256, per=24),
+    'C02': dict(n=4, space=65536, per=24),
+    'C03': dict(n=4, space=65536, per=5),
+    'C04': dict(n=4, space=65536, per=3),
+    'C10': dict(n=4, space=65536, per=5),
+    'C18': dict(n=4, space=65536, per=10),
+    'C13': dict(n=3, space=256 * 16, per=5, bg=['gc', 'finalize']),
+}
+DENSE_RATE = dict(quick=0.08, thorough=0.35)
 
 _w = gen._w
 
 PROFILES = {
     # connectives against warm caches, recycled numbers, post-swap tables
     'C01': dict(weights=_w(apply=22, ite=8, fop=8, cube=3, quant=1, let=1,
-                           gc=4, swap=4, reorder=1),
+                           gc=5, swap=4, reorder=1, redo=10, probe=6),
                 flavors=['raw', 'autoref'], nv=(2, 8), steps=(20, 120)),
     # equal functions arriving by different routes at different times
     'C02': dict(weights=_w(apply=10, ite=4, eqcheck=8, find_or_add=8, let=4,
@@ -18,9 +30,9 @@ PROFILES = {
                            sizes=3),
                 flavors=['raw', 'autoref'], nv=(1, 6), steps=(20, 120),
                 m1_rate=0.15),
-    'C03': dict(weights=_w(quant=24, apply=8, gc=2, swap=3, reorder=1),
+    'C03': dict(weights=_w(quant=24, apply=8, gc=3, swap=3, reorder=1, redo=8, probe=8), probe_second=['quant'],
                 flavors=['raw', 'autoref'], nv=(1, 7), steps=(15, 80)),
-    'C04': dict(weights=_w(let=24, apply=8, gc=2, swap=3, reorder=1),
+    'C04': dict(weights=_w(let=24, apply=8, gc=3, swap=3, reorder=1, redo=8, probe=8), probe_second=['let'],
                 flavors=['raw', 'autoref'], nv=(1, 7), steps=(15, 80)),
     'C05': dict(weights=_w(add_expr=24, to_expr=8, apply=6, quant=1, let=1,
                            gc=2, swap=3, reorder=1, reject=3),
@@ -28,7 +40,7 @@ PROFILES = {
                 m1_rate=0.2, reject_kinds=['formula_name', 'formula_syntax', 'formula_node'],
                 doc_cases=0.08),
     'C06': dict(weights=_w(apply=12, drop=12, dup=5, gc=10, swap=5, reorder=2,
-                           pairs=1, find_or_add=3),
+                           pairs=1, find_or_add=3, redo=10, probe=6),
                 flavors=['raw'], nv=(2, 7), steps=(20, 160)),
     'C07': dict(weights=_w(apply=8, drop=3, gc=2, swap=14, reorder=6,
                            pairs=4, eqcheck=2),
@@ -68,7 +80,8 @@ PROFILES = {
                            swap=2, reorder=1, declare=1, drop=5, arm=0,
                            configure=0),
                 flavors=['raw', 'autoref'], nv=(1, 6), steps=(20, 100),
-                m1_rate=0.2, disk_faults=0.9, dyn_rate=0.35),
+                m1_rate=0.2, disk_faults=0.9, dyn_rate=0.35, spare_rate=0.5,
+                reject_kinds=ops_reject.KINDS + ['load_clash', 'load_clash']),
     'C18': dict(weights=_w(traverse=10, sizes=8, to_nx=5, dump_dot=5, apply=10,
                            gc=2, swap=3, reorder=1),
                 flavors=['raw', 'autoref'], nv=(1, 6), steps=(15, 70)),
@@ -115,7 +128,9 @@ def make_cfg(prop, seed, tier='quick', idx=0):
     cfg = dict(
         prop=prop, nv=nv, names=names, flavor=flavor, weights=weights,
         steps=r.randint(lo, hi), n_mgrs=2,
-        declared=(r.randint(0, nv) if P.get('declared0') else (nv if r.random() < 0.8 else r.randint(0, nv))),
+        declared=(r.randint(0, nv) if P.get('declared0') else
+                  (r.randint(1, max(1, nv - 1)) if r.random() < P.get('spare_rate', 0.0) else
+                   (nv if r.random() < 0.8 else r.randint(0, nv)))),
         keep_rate=r.choice([0.5, 0.7, 0.9, 1.0]),
         max_slots=r.choice([6, 10, 16, 24]),
         dyn=dyn,
@@ -124,10 +139,23 @@ def make_cfg(prop, seed, tier='quick', idx=0):
         m1_rate=P.get('m1_rate', 0.0),
         disk_faults=r.random() < P.get('disk_faults', 0.0),
         fault_rate=r.choice([0.15, 0.3, 0.5]),
-        reject_kinds=P.get('reject_kinds'),
+        reject_kinds=P.get('reject_kinds'), probe_second=P.get('probe_second'),
         copy_copy=bool(P.get('copy_copy')) and r.random() < P['copy_copy'],
         sift_tiny=bool(P.get('sift_tiny')), doc_cases=doc_cases,
     )
+    if prop in DENSE and r.random() < DENSE_RATE.get(tier, 0.0):
+        d = dict(DENSE[prop])
+        d.update(kind=prop, block=idx, bg_rate=r.choice([0.0, 0.1, 0.2, 0.35]), pos_x=0, pos_xp=1)
+        if prop in ('C02', 'C03', 'C04', 'C10', 'C18') and r.random() < 0.5:
+            d['n'] = r.choice([1, 2, 3])
+            d['space'] = 1 << (1 << d['n'])
+        cfg['dense'] = d
+        cfg['nv'] = max(cfg['nv'], d['n'] + (1 if r.random() < 0.5 else 0))
+        if len(cfg['names']) < cfg['nv']:
+            pool = [x for x in gen.NAME_POOL if x not in cfg['names']]
+            cfg['names'] = cfg['names'] + r.sample(pool, cfg['nv'] - len(cfg['names']))
+        cfg['declared'] = cfg['nv']
+        cfg['dyn'] = False
     # open known findings: most runs steer around the trigger so that
     # exploration continues past it; the rest confirm it is still the same
     openf = [x for x in os.environ.get('DDSIM_OPEN_FINDINGS', '').split(',') if x]
